@@ -251,8 +251,10 @@ def run(ctx):
     logging.getLogger("ibllib").setLevel(logging.CRITICAL)
     ctx.level = "model_checking"
     cfg = "mc/WaveformExtract_quick.cfg" if ctx.quick else "mc/WaveformExtract_thorough.cfg"
-    r = tlc.run("mc/MC_WaveformExtract.tla", cfg, workers=8, timeout=3000, heap="8g")
+    r = tlc.run("mc/MC_WaveformExtract.tla", cfg, workers=8, timeout=3000, heap="8g", coverage=True)
     ctx.tlc(r, cfg)
+    if r.ok:
+        tlc.require_all_actions_taken(r)
     if not r.ok:
         raise tlc.TLCError(f"WaveformExtract model of the current tree violates {r.invariant_violated}:\n{r.out[-2000:]}")
     scs = scenarios(ctx)
